@@ -32,11 +32,11 @@ Fixpoint first_expr (p : list pitem) : option N :=
   | PWild :: r => first_expr r
   end.
 
-(* LIMIT n is built by expr_of_i64 (gen_expr.rs): Value::Number(n.to_string(), n.leading_zeros() < 32) -- sqlparser prints the
-   `long` flag as a suffix L, so every n >= 2^32 (and every negative n) is spelled `<n>L`; OFFSET and FETCH go through
-   translate_expr and are plain.  [LNum z] stands for that spelling: decimal digits, then L iff [lim_long z]. *)
+(* LIMIT n is built by expr_of_i64 (gen_expr.rs).  Until fix 1cedbd3 it set sqlparser's `long` flag from 2^32 on and the
+   numeral was printed with a suffix L (finding N17); now Value::Number(n.to_string(), false): [LNum z] is the plain decimal
+   numeral of z, [lim_long] -- "the spelling carries a suffix" -- is constantly false. *)
 Inductive limval := LNum (z : Z) | LSpell (s : list N).
-Definition lim_long (z : Z) : bool := (z <? 0) || (4294967296 <=? z).
+Definition lim_long (z : Z) : bool := false.
 (* ORDER BY of the query: the n keys of the last Sort (0 = no ORDER BY), or one forced key *)
 Inductive ordk := OKeys (n : nat) | OFallbackNull | OFallbackExpr (e : N).
 Record clauses := mkClauses { k_limit : option limval; k_offset : option (Z * bool) (* value, ROWS *); k_fetch : option Z; k_order : ordk }.
